@@ -373,7 +373,16 @@ func runC03(c *Ctx) {
 				t0 := time.Now()
 				var ok bool
 				out := c.Op("c03.probe "+strings.ReplaceAll(e.name, " ", "_")+" "+hx(in), func() string {
-					ok = e.call(w, buf)
+					// once with no spare capacity (reading past len panics) and once inside the poisoned buffer
+					// (reading past len would silently use the caller's bytes): the verdicts must agree
+					exact := append(make([]byte, 0, len(in)), in...)
+					if in == nil {
+						exact = nil
+					}
+					ok = e.call(w, exact)
+					if ok2 := e.call(w, buf); ok2 != ok {
+						return "verdict-depends-on-spare-capacity"
+					}
 					return "-"
 				})
 				dt := time.Since(t0)
@@ -390,6 +399,7 @@ func runC03(c *Ctx) {
 					c.Direct(false, "panic on peer-supplied bytes", inp)
 					continue
 				}
+				c.Direct(out == "-", "outcome depends on bytes behind the input's length", inp)
 				c.Direct(alloc <= 4<<20+512*uint64(len(in)), fmt.Sprintf("allocated %d bytes for %d bytes of input", alloc, len(in)), inp)
 				c.Direct(dt < 3*time.Second, fmt.Sprintf("took %v", dt), inp)
 			}
@@ -397,6 +407,21 @@ func runC03(c *Ctx) {
 		c.Count(fmt.Sprintf("%s:accepted", e.name))
 		c.hist[e.name+":accepted"] = nAcc
 		c.hist[e.name+":rejected"] = nRej
+	}
+	// crafted type-3 requests (well sealed and signed) around unusual inner plaintexts
+	{
+		cl := newT3Client(r)
+		bm := r.Bytes(256)
+		bm[0] = 0
+		for _, pt := range [][]byte{{}, bm[:100], append([]byte{1}, bm...), append(append([]byte{1}, bm...), 0, 0), append(append([]byte{1}, bm...), 0, 1, 0),
+			append(append([]byte{1}, bm...), 0, 32), append(append(append([]byte{1}, bm...), 0, 32), make([]byte, 32)...), append(append([]byte{1}, bm...), 0xff, 0xff)} {
+			req := craftRequest(w.env, cl, pt)
+			out := c.Op("c03.probe type3.Issuer.Evaluate(crafted-inner) "+hx(req), func() string {
+				w.env.issuer.Evaluate(req)
+				return "-"
+			})
+			c.Direct(out == "-", "panic on a well-sealed request with an unusual inner plaintext", map[string]any{"inner": hx(pt), "request": hx(req), "panic": firstLines(lastPanic, 10)})
+		}
 	}
 	// ---- literal models: outcome and value compared with the Lean model ----
 	for _, in := range c03Mutations(r, w.resp["req5"], c.Pick(300, 5000), c.Thorough()) {
